@@ -1,8 +1,9 @@
-/- Units commands (C08, C12, C13, C18): `uparse`, `uprint`, `utree`, `udefs`. -/
+/- Units commands (C08, C12, C13, C18): `uparse`, `uprint`, `utree`, `udefs`, `usession`. -/
 import QExPy.Driver.Json
 import QExPy.Model.Units
 import QExPy.Model.UnitParse
 import QExPy.Model.UnitDefs
+import QExPy.Model.ParseSession
 namespace QExPy.Drv
 open Lean QExPy QExPy.U
 
@@ -86,12 +87,13 @@ def cmdUParse (j : Json) : R Json := do
   pure (obj [("model", putOptUnits (parse cs)), ("ref", putOptUnits (refParse cs)),
     ("lex", Json.bool (rawTop cs).isSome)])
 
-/-- {"cmd":"uprint","units":..,"frac":bool,"defs":[..]} → printed string (the `unit` property),
+/-- {"cmd":"uprint","units":..,"frac":bool,"defs":[..] | "reqs":[..]} → printed string (the
+    `unit` property) under the definitions given or left by the define/clear history `reqs`,
     what the model parser reads back from it -/
 def cmdUPrint (j : Json) : R Json := do
   let u ← getUnits (← field j "units")
   let frac ← (← field j "frac").getBool?
-  let defs ← getDefs (fieldD j "defs" (Json.arr #[]))
+  let defs ← getDefsOrReqs j
   if !smallDen u then throw "exponent denominator > 10"
   let s := unitProp defs frac u
   let back := if s.isEmpty then some [] else parse s
@@ -121,7 +123,29 @@ def cmdUDefs (j : Json) : R Json := do
     ("defs", Json.arr (defs.map fun (n, u) =>
       Json.arr #[Json.str (String.ofList n), putUnits u]).toArray)])
 
+/-- ["parse", s] | ["edit", h, "set", key, num, den] | ["edit", h, "pop", key] |
+    ["edit", h, "clear"] | ["read", h] : one request of a parse session -/
+def getPReq (j : Json) : R PReq := do
+  let t ← getArr j
+  match (← getStr t[0]!) with
+  | "parse" => pure (PReq.parse (← getStr t[1]!).toList)
+  | "read" => pure (PReq.read (← t[1]!.getNat?))
+  | "edit" => do
+    let h ← t[1]!.getNat?
+    match (← getStr t[2]!) with
+    | "set" => pure (PReq.edit h (Edit.set (← getStr t[3]!).toList (← getRat t[4]! t[5]!)))
+    | "pop" => pure (PReq.edit h (Edit.pop (← getStr t[3]!).toList))
+    | "clear" => pure (PReq.edit h Edit.clear)
+    | k => throw s!"unknown edit {k}"
+  | k => throw s!"unknown session request {k}"
+
+/-- {"cmd":"usession","steps":[..]} → the reply of every request of the history (`runS`) -/
+def cmdUSession (j : Json) : R Json := do
+  let rs ← (← getArr (← field j "steps")).toList.mapM getPReq
+  pure (obj [("replies", Json.arr ((runS [] rs).map putOptUnits).toArray)])
+
 def unitsCmds : List (String × (Json → R Json)) :=
-  [("uparse", cmdUParse), ("uprint", cmdUPrint), ("utree", cmdUTree), ("udefs", cmdUDefs)]
+  [("uparse", cmdUParse), ("uprint", cmdUPrint), ("utree", cmdUTree), ("udefs", cmdUDefs),
+   ("usession", cmdUSession)]
 
 end QExPy.Drv
